@@ -81,6 +81,14 @@ partial def loop (h : IO.FS.Stream) : IO Unit := do
     let outs := (List.range 4).flatMap fun amp =>
       [d16 amp 0 v, d16 amp 0x8000 v, d8 amp 0 v, d8 amp 0x80 v]
     IO.println (s!"one {v}" ++ String.join (outs.map fun o => s!" {o}"))
+  | ["prep", fmt, f, amp] =>
+    -- voiceless frame whose tick size computes to exactly f (see harness/c13_downmix.c)
+    let fv := f.toInt?.getD 0
+    let fm := Fmt.ofNat (fmt.toNat?.getD 0)
+    let t := ticksizeOf (if fv ≤ 0 then none else some fv)
+    let ts := prepareTicksize t
+    let out := renderBytes fm ts (amp.toNat?.getD 0) (List.replicate buf32Alloc 0)
+    IO.println s!"prep {ts} {bufferSize fm ts} {hex64 (fnvBytes fnvInit out)}"
   | ["site", fmt, ticksize, amp, acc] =>
     -- final stage of libxmp_mixer_softmixer: format flags, tick size, amplification, accumulators
     let f := Fmt.ofNat (fmt.toNat?.getD 0)
